@@ -108,7 +108,7 @@ func lemmaObligations() []*Obligation {
 	for _, f := range cntFamilies {
 		def := cntDefs(f.fn, f.rowSort, f.isSet)
 		obs = append(obs, &Obligation{Name: "lemma/" + f.fn + "_succ", Func: f.fn, Kind: "lemma", Pos: "govc/lemmas.go",
-			Note: "successor equation is an instance of the recursive definition",
+			Note:     "successor equation is an instance of the recursive definition",
 			rawQuery: smtHeader + def + fmt.Sprintf("\n(declare-fun r () %s)\n(declare-fun n () Int)\n(assert (>= n 0))\n(assert (not (= (%s r (+ n 1)) (+ (%s r n) (ite %s 1 0)))))\n(check-sat)\n", f.rowSort, f.fn, f.fn, fmt.Sprintf(f.isSet, "(select r n)"))})
 		earlier := ""
 		for _, l := range cntLemmas(f.fn, f.rowSort, f.elemSort, f.isSet, f.zero) {
